@@ -276,6 +276,13 @@ pub fn profile(name: &str) -> Profile {
             p.bad_connack = (1, 3);
             p.tx = vec![24, 32, 48, 64, 96, 128];
         }
+        "c13" => {
+            // time passes between a dropped future and the call that resumes its packet: a PINGREQ (another queue)
+            // may fall due while a retained packet is half written
+            p.ka = vec![0, 0, 1, 2, 5, 10];
+            p.w_advance = 3;
+            p.w_garbage = 0;
+        }
         "c14" => {
             p.limits = true;
             p.payloads = vec![0, 1, 2, 3, 4, 5, 6, 7, 8, 9, 10, 12, 14, 16, 20, 30];
@@ -302,6 +309,10 @@ pub fn profile(name: &str) -> Profile {
             p.w_garbage = 0;
             p.fault = (1, 6);
             p.invalid_props = (0, 1);
+            // sessions that end with packets in flight and are followed by a fresh one: what the old session held is
+            // discarded, and the arena must offer its whole capacity again
+            p.conns = (1, 5);
+            p.resume = (1, 2);
         }
         "c18" => {
             p.w_ack = 10;
